@@ -301,7 +301,7 @@ func replayOblig(o *Oblig, prop string, workdir string) *ReplayRecord {
 	pkg := fn.Pkg.Pkg
 	fmt.Fprintf(&sb, "//go:build go1.18\n\npackage %s\n\nimport (\n\t\"fmt\"\n\t\"testing\"\n)\n\n", pkg.Name())
 	gg := &goGen{pcs: []*PkgContracts{g.pc}, pures: map[string]bool{}, oldVars: map[string]bool{}}
-	for _, pc := range g.prog.contracts {
+	for _, pc := range g.prog.sortedContracts() {
 		if pc != g.pc {
 			gg.pcs = append(gg.pcs, pc)
 		}
